@@ -208,6 +208,35 @@ def rawKwOf (fields : List (Str × Node)) : List Attr → List (Str × Node)
 def RT (v : Node) : Prop :=
   ∃ t, toEtree S cv v = .ok t ∧ fromEtree S cv (mapText esc t) = .ok v
 
+/-- the raw positional argument an `ElementList` member contributes when the written tree is read back -/
+def rawEl (inner : Kind) (ireq : Bool) (m : Node) : Node :=
+  match cv.unconvert S.enums inner ireq (Node.toVal m) with
+  | .ok (.str s) => .val (.str (esc s))
+  | _ => m
+
+/-- the positional arguments `from_etree` collects from the written tree: the members themselves for a plain
+    aggregate, the (escaped) texts of the members for an `ElementList` -/
+def rawItemsOf (c : Cls) (items : List Node) : List Node :=
+  if c.elementList then
+    match c.spec.filter (fun a => a.kind.isListElem) with
+    | [a] =>
+      match a.kind with
+      | .listElem inner ireq => items.map (rawEl S cv esc inner ireq)
+      | _ => items
+    | _ => items
+  else items
+
+theorem rawItemsOf_plain (c : Cls) (items : List Node) (hel : c.elementList = false) :
+    rawItemsOf S cv esc c items = items := by simp [rawItemsOf, hel]
+
+theorem rawItemsOf_nil (c : Cls) : rawItemsOf S cv esc c [] = [] := by
+  unfold rawItemsOf
+  split
+  · split
+    · split <;> rfl
+    · rfl
+  · rfl
+
 end
 
 /-- class-level facts the round trip relies on (consequences of the decidable `WF.clsOk`) -/
@@ -220,6 +249,8 @@ structure ClsWF (S : Schema) (c : Cls) : Prop where
   listBlock : ∀ (i j q : Nat) (ai aj aq : Attr), c.spec[i]? = some ai → ai.kind.isList = true → i < j →
     c.spec[j]? = some aj → aj.kind.isList = false → aj.kind.isUnsupported = false →
     c.spec[q]? = some aq → aq.kind.isList = true → q < j
+  elOk : c.elementList = true → ∃ a inner ireq, c.spec.filter (fun a => a.kind.isListElem) = [a] ∧
+    a.kind = .listElem inner ireq ∧ ∀ b ∈ c.spec, b.kind.isList = true → b = a
 
 theorem specIndex_at (c : Cls) (pre rest : List Attr) (a : Attr) (hspec : c.spec = pre ++ a :: rest)
     (hnd : (c.spec.map (·.name)).Nodup) : specIndex c a.name = some pre.length := by
@@ -353,13 +384,16 @@ variable (S : Schema) (cv : Conv) (esc : Str → Str) (Dom : Kind → Bool → V
 /-- everything the per-node round trip needs to know about a node `agg ci fields items` of class `c` -/
 structure RTCtx (c : Cls) (fields : List (Str × Node)) (items : List Node) : Prop where
   wf : ClsWF S c
-  hel : c.elementList = false
   hg : c.groom = none
   laws : ConvLaws cv S.enums esc Dom
   fieldOk : ∀ a ∈ c.spec, a.kind.isList = false → a.kind.isUnsupported = false →
     ∃ v, lookup a.name fields = some v ∧ FieldOk Dom a v
   subRT : ∀ a ∈ c.spec, ∀ v, lookup a.name fields = some v → v.isAgg = true → RT S cv esc v
-  itemsOk : ∀ m ∈ items, ItemOk S cv esc c m
+  /-- a plain aggregate's members are instances of its list classes … -/
+  itemsOk : c.elementList = false → ∀ m ∈ items, ItemOk S cv esc c m
+  /-- … an `ElementList`'s members are values of its list element's type -/
+  elItems : c.elementList = true → ∀ a ∈ c.spec, ∀ inner ireq, a.kind = .listElem inner ireq →
+    ∀ m ∈ items, ∃ x, m = .val x ∧ x ≠ .none ∧ Dom inner ireq x
 
 def PrevOk (c : Cls) (pre : List Attr) (doList : Bool) (acc : Accum) : Prop :=
   match acc.prev with
@@ -510,7 +544,10 @@ def ChildOk (c : Cls) (fields : List (Str × Node)) (items : List Node) (ch : Tr
   (∃ a ∈ c.spec, ∃ x s, a.kind.isList = false ∧ a.kind.isUnsupported = false ∧ x ≠ .none ∧
       lookup a.name fields = some (.val x) ∧ cv.unconvert S.enums a.kind a.required x = .ok (.str s) ∧
       ch = Tree.node (upper a.name) (some s) none []) ∨
-  (∃ v, ((∃ n, (n, v) ∈ fields) ∨ v ∈ items) ∧ v.isAgg = true ∧ toEtree S cv v = .ok ch)
+  (∃ v, ((∃ n, (n, v) ∈ fields) ∨ v ∈ items) ∧ v.isAgg = true ∧ toEtree S cv v = .ok ch) ∨
+  (∃ a ∈ c.spec, ∃ inner ireq x s, c.elementList = true ∧ a.kind = .listElem inner ireq ∧ Node.val x ∈ items ∧
+      x ≠ .none ∧ cv.unconvert S.enums inner ireq x = .ok (.str s) ∧
+      ch = Tree.node (upper a.name) (some s) none [])
 
 theorem itemTrees_mapM (items : List Node) : ∀ (ts : List Tree),
     (itemTrees S cv items).mapM id = .ok ts → ∀ ch ∈ ts, ∃ v ∈ items, toEtree S cv v = .ok ch := by
@@ -536,6 +573,133 @@ theorem itemTrees_mapM (items : List Node) : ∀ (ts : List Tree),
         · obtain ⟨w, hw, hwt⟩ := ih tvs hvs ch hch
           exact ⟨w, by simp [hw], hwt⟩
 
+/-- what `ElementList._listAppend` writes for one member -/
+def elLeaf (a : Attr) (inner : Kind) (ireq : Bool) (m : Node) : PyM Tree := do
+  let t ← cv.unconvert S.enums inner ireq (Node.toVal m)
+  leafOf a t
+
+/-- `ElementList`: the list element's name is the one list member name -/
+theorem el_listMember (c : Cls) (a : Attr) (hel : c.elementList = true)
+    (hfilt : c.spec.filter (fun a => a.kind.isListElem) = [a]) : isListMember c a.name = true := by
+  simp [isListMember, listAggNames, listElemNames, hel, hfilt]
+
+/-- the members of an `ElementList`: written as leaves under the list element's tag, read back as the
+    (escaped) texts in order -/
+theorem items_fold_el (c : Cls) (wf : ClsWF S c) (hel : c.elementList = true) (hg : c.groom = none)
+    (laws : ConvLaws cv S.enums esc Dom) (a : Attr) (inner : Kind) (ireq : Bool)
+    (hfilt : c.spec.filter (fun a => a.kind.isListElem) = [a]) (hk : a.kind = .listElem inner ireq) :
+    ∀ (ms : List Node) (acc : Accum), (∀ m ∈ ms, ∃ x, m = .val x ∧ x ≠ .none ∧ Dom inner ireq x) →
+    (acc.prevIsList = true ∨ ∀ q, acc.prev = some q → ∀ idx b, c.spec[idx]? = some b →
+        b.kind.isList = true → q < idx) →
+    ∃ ts acc', ms.mapM (elLeaf S cv a inner ireq) = (.ok ts : PyM (List Tree)) ∧
+      foldChildren c (mapTextList esc ts) (childInsts S cv (mapTextList esc ts)) acc = .ok acc' ∧
+      acc'.args = acc.args ++ ms.map (rawEl S cv esc inner ireq) ∧ acc'.kwargs = acc.kwargs ∧
+      (ms = [] → acc' = acc) ∧
+      (ms ≠ [] → acc'.prevIsList = true ∧ ∃ q aq, acc'.prev = some q ∧ c.spec[q]? = some aq ∧
+        aq.kind.isList = true) ∧
+      (∀ ch ∈ ts, ∃ x s, Node.val x ∈ ms ∧ x ≠ .none ∧ cv.unconvert S.enums inner ireq x = .ok (.str s) ∧
+        ch = Tree.node (upper a.name) (some s) none [])
+  | [], acc, _, _ => ⟨[], acc, rfl, rfl, by simp, rfl, fun _ => rfl, fun h => absurd rfl h, by simp⟩
+  | m :: ms, acc, hms, hacc => by
+    obtain ⟨x, rfl, hx, hdom⟩ := hms m (by simp)
+    obtain ⟨s, hunc, hne, hconv⟩ := laws.round inner ireq x hdom hx
+    have ha : a ∈ c.spec := by
+      have : a ∈ c.spec.filter (fun a => a.kind.isListElem) := by rw [hfilt]; simp
+      exact (List.mem_filter.mp this).1
+    obtain ⟨pre, rest, hspec⟩ := spec_split ha
+    have hidx : specIndex c a.name = some pre.length := specIndex_at c pre rest a hspec wf.nodup
+    have hget : c.spec[pre.length]? = some a := by rw [hspec]; exact getElem_at pre rest a
+    have hlist : a.kind.isList = true := by simp [hk, Kind.isList]
+    have hunsup : a.kind.isUnsupported = false := by simp [hk, Kind.isUnsupported]
+    have hmember := el_listMember c a hel hfilt
+    obtain ⟨hname, hdot⟩ := wf.nameOk a ha
+    -- the step on this member's leaf
+    obtain ⟨t0, ts0, hes⟩ : ∃ t0 ts0, esc s = t0 :: ts0 := by
+      cases h : esc s with
+      | nil => exact absurd h hne
+      | cons t0 ts0 => exact ⟨t0, ts0, rfl⟩
+    have hstep : ∀ sub, updateArgs c acc (Tree.node (upper a.name) (some (esc s)) none []) sub =
+        .ok { acc with args := acc.args ++ [Node.val (.str (esc s))], prev := some pre.length, prevIsList := true } := by
+      intro sub
+      have := updateArgs_known c acc (Tree.node (upper a.name) (some (esc s)) none []) sub pre.length
+        (.val (.str (esc s))) hg (by simpa [Tree.tag] using hdot)
+        (by simp only [Tree.tag]; rw [hname]; exact hidx)
+        (by
+          simp only [Tree.tag]; rw [hname, hmember]
+          rcases hacc with hp | hq
+          · simp [hp]
+          · cases hprev : acc.prev with
+            | none => simp [outOfOrder]
+            | some q =>
+              have := hq q hprev pre.length a hget hlist
+              simp [outOfOrder]; omega)
+        (by simp [unsupportedAt, hget, hunsup])
+        (by simp [childValue, Tree.text, hes])
+      rw [this]; simp [Tree.tag, hname, hmember]
+    obtain ⟨ts, acc', hts, hfold, hargs, hkw, hnil, hcons, hch⟩ :=
+      items_fold_el c wf hel hg laws a inner ireq hfilt hk ms
+        { acc with args := acc.args ++ [Node.val (.str (esc s))], prev := some pre.length, prevIsList := true }
+        (fun y hy => hms y (by simp [hy])) (Or.inl rfl)
+    refine ⟨Tree.node (upper a.name) (some s) none [] :: ts, acc', ?_, ?_, ?_, ?_, ?_, ?_, ?_⟩
+    · have h1 : elLeaf S cv a inner ireq (.val x) = .ok (Tree.node (upper a.name) (some s) none []) := by
+        simp [elLeaf, Node.toVal, hunc, leafOf, bind, Except.bind]
+      rw [List.mapM_cons, h1, hts]; rfl
+    · simp only [mapTextList, mapText, Option.map, childInsts, foldChildren, hstep, bind, Except.bind]
+      exact hfold
+    · simp [hargs, rawEl, Node.toVal, hunc]
+    · simp [hkw]
+    · intro h; simp at h
+    · intro _
+      by_cases hms' : ms = []
+      · subst hms'
+        have := hnil rfl
+        subst this
+        exact ⟨rfl, pre.length, a, rfl, hget, hlist⟩
+      · exact hcons hms'
+    · intro ch hmem
+      simp only [List.mem_cons] at hmem
+      rcases hmem with rfl | hmem
+      · exact ⟨x, s, by simp, hx, hunc, rfl⟩
+      · obtain ⟨y, sy, hy, h2⟩ := hch ch hmem
+        exact ⟨y, sy, by simp [hy], h2⟩
+
+/-- the list block of either kind of aggregate: written by `_listAppend`, read back as `rawItemsOf` -/
+theorem members_fold (c : Cls) (fields : List (Str × Node)) (items : List Node)
+    (ctx : RTCtx S cv esc Dom c fields items) (acc : Accum)
+    (hacc : acc.prevIsList = true ∨ ∀ q, acc.prev = some q → ∀ idx b, c.spec[idx]? = some b →
+        b.kind.isList = true → q < idx) :
+    ∃ ts acc', listAppend S cv c items (itemTrees S cv items) = .ok ts ∧
+      foldChildren c (mapTextList esc ts) (childInsts S cv (mapTextList esc ts)) acc = .ok acc' ∧
+      acc'.args = acc.args ++ rawItemsOf S cv esc c items ∧ acc'.kwargs = acc.kwargs ∧
+      (items = [] → acc' = acc) ∧
+      (items ≠ [] → acc'.prevIsList = true ∧ ∃ q aq, acc'.prev = some q ∧ c.spec[q]? = some aq ∧
+        aq.kind.isList = true) ∧
+      (∀ ch ∈ ts, ChildOk S cv c fields items ch) := by
+  cases hel : c.elementList with
+  | false =>
+    obtain ⟨ts, acc', hts, hfold, hargs, hkw, hnil, hcons⟩ :=
+      items_fold S cv esc c hel ctx.hg ctx.wf.nodup items acc (ctx.itemsOk hel) hacc
+    refine ⟨ts, acc', by simp [listAppend, hel, hts], hfold, by rw [rawItemsOf_plain S cv esc c items hel]; exact hargs,
+      hkw, hnil, hcons, ?_⟩
+    intro ch hmem
+    obtain ⟨v, hv, hvt⟩ := itemTrees_mapM S cv items ts hts ch hmem
+    obtain ⟨cj, f, i, _, rfl, _⟩ := (ctx.itemsOk hel v hv).ex
+    exact Or.inr (Or.inl ⟨_, Or.inr hv, rfl, hvt⟩)
+  | true =>
+    obtain ⟨a, inner, ireq, hfilt, hk, _⟩ := ctx.wf.elOk hel
+    have ha : a ∈ c.spec := by
+      have : a ∈ c.spec.filter (fun a => a.kind.isListElem) := by rw [hfilt]; simp
+      exact (List.mem_filter.mp this).1
+    obtain ⟨ts, acc', hts, hfold, hargs, hkw, hnil, hcons, hch⟩ :=
+      items_fold_el S cv esc Dom c ctx.wf hel ctx.hg ctx.laws a inner ireq hfilt hk items acc
+        (ctx.elItems hel a ha inner ireq hk) hacc
+    refine ⟨ts, acc', ?_, hfold, ?_, hkw, hnil, hcons, ?_⟩
+    · simp only [listAppend, hel, if_true, hfilt, hk]; exact hts
+    · simp only [rawItemsOf, hel, if_true, hfilt, hk]; exact hargs
+    · intro ch hmem
+      obtain ⟨x, s, hx, hxn, hunc, rfl⟩ := hch ch hmem
+      exact Or.inr (Or.inr ⟨a, ha, inner, ireq, x, s, hel, hk, hx, hxn, hunc, rfl⟩)
+
 theorem emit_fold (c : Cls) (fields : List (Str × Node)) (items : List Node)
     (ctx : RTCtx S cv esc Dom c fields items) :
     ∀ (rest pre : List Attr) (doList : Bool) (acc : Accum), c.spec = pre ++ rest →
@@ -546,7 +710,7 @@ theorem emit_fold (c : Cls) (fields : List (Str × Node)) (items : List Node)
       emitSpec S cv c fields (fieldTrees S cv fields) items (itemTrees S cv items) rest doList = .ok ts ∧
       foldChildren c (mapTextList esc ts) (childInsts S cv (mapTextList esc ts)) acc = .ok acc' ∧
       acc'.kwargs = acc.kwargs ++ rawKwOf S cv esc fields rest ∧
-      acc'.args = acc.args ++ (if doList && rest.any (·.kind.isList) then items else []) ∧
+      acc'.args = acc.args ++ (if doList && rest.any (·.kind.isList) then rawItemsOf S cv esc c items else []) ∧
       (∀ ch ∈ ts, ChildOk S cv c fields items ch)
   | [], pre, doList, acc, _, _, _, _ =>
     ⟨[], acc, rfl, rfl, by simp [rawKwOf], by simp, by simp⟩
@@ -588,8 +752,8 @@ theorem emit_fold (c : Cls) (fields : List (Str × Node)) (items : List Node)
           rcases hprev with h | h
           · omega
           · exact absurd h.1 (by simp)
-        obtain ⟨tsI, accI, htsI, hfoldI, hargsI, hkwI, hnilI, hconsI⟩ :=
-          items_fold S cv esc c ctx.hel ctx.hg ctx.wf.nodup items acc ctx.itemsOk hacc
+        obtain ⟨tsI, accI, hla, hfoldI, hargsI, hkwI, hnilI, hconsI, hchI⟩ :=
+          members_fold S cv esc Dom c fields items ctx acc hacc
         have hdl' : (false = true ↔ ∀ x ∈ pre ++ [a], x.kind.isList = false) := by
           constructor
           · intro h; exact absurd h (by simp)
@@ -617,7 +781,7 @@ theorem emit_fold (c : Cls) (fields : List (Str × Node)) (items : List Node)
             hprevI
         refine ⟨tsI ++ ts, acc', ?_, ?_, ?_, ?_, ?_⟩
         · rw [emitSpec_list_first S cv c fields items a rest hl]
-          simp [listAppend, ctx.hel, htsI, hemit, bind, Except.bind, pure, Except.pure]
+          simp [hla, hemit, bind, Except.bind, pure, Except.pure]
         · rw [mapTextList_append, childInsts_append,
             foldChildren_append c _ _ _ _ acc (by rw [childInsts_length])]
           simp [hfoldI, bind, Except.bind, hfold]
@@ -626,9 +790,7 @@ theorem emit_fold (c : Cls) (fields : List (Str × Node)) (items : List Node)
         · intro ch hmem
           simp only [List.mem_append] at hmem
           rcases hmem with hmem | hmem
-          · obtain ⟨v, hv, hvt⟩ := itemTrees_mapM S cv items tsI htsI ch hmem
-            obtain ⟨cj, f, i, _, rfl, _⟩ := (ctx.itemsOk v hv).ex
-            exact Or.inr ⟨_, Or.inr hv, rfl, hvt⟩
+          · exact hchI ch hmem
           · exact hch ch hmem
     · -- a non-list attribute
       have hl : a.kind.isList = false := by simpa using hl
@@ -674,7 +836,7 @@ theorem emit_fold (c : Cls) (fields : List (Str × Node)) (items : List Node)
               emitSpec S cv c fields (fieldTrees S cv fields) items (itemTrees S cv items) (a :: rest) doList = .ok ts ∧
               foldChildren c (mapTextList esc ts) (childInsts S cv (mapTextList esc ts)) acc = .ok acc' ∧
               acc'.kwargs = acc.kwargs ++ rawKwOf S cv esc fields (a :: rest) ∧
-              acc'.args = acc.args ++ (if doList && (a :: rest).any (·.kind.isList) then items else []) ∧
+              acc'.args = acc.args ++ (if doList && (a :: rest).any (·.kind.isList) then rawItemsOf S cv esc c items else []) ∧
               (∀ ch ∈ ts, ChildOk S cv c fields items ch) := by
           intro tr raw hft hraw hchild htag hdot hval
           have hstep := known_field_step S c ctx.wf ctx.hg acc (mapText esc tr) (fromEtree S cv (mapText esc tr))
@@ -699,7 +861,7 @@ theorem emit_fold (c : Cls) (fields : List (Str × Node)) (items : List Node)
               emitSpec S cv c fields (fieldTrees S cv fields) items (itemTrees S cv items) (a :: rest) doList = .ok ts ∧
               foldChildren c (mapTextList esc ts) (childInsts S cv (mapTextList esc ts)) acc = .ok acc' ∧
               acc'.kwargs = acc.kwargs ++ rawKwOf S cv esc fields (a :: rest) ∧
-              acc'.args = acc.args ++ (if doList && (a :: rest).any (·.kind.isList) then items else []) ∧
+              acc'.args = acc.args ++ (if doList && (a :: rest).any (·.kind.isList) then rawItemsOf S cv esc c items else []) ∧
               (∀ ch ∈ ts, ChildOk S cv c fields items ch) := by
           intro hft hraw
           obtain ⟨ts, acc', hemit, hfold, hkw, hargs, hch⟩ :=
@@ -724,7 +886,7 @@ theorem emit_fold (c : Cls) (fields : List (Str × Node)) (items : List Node)
           · obtain ⟨tv, htv, hback⟩ := ctx.subRT a ha _ hv rfl
             obtain ⟨tc, htc, hlow, hdot, _⟩ := ctx.wf.subOk a ha t (Or.inl hkind)
             obtain ⟨htag, htext⟩ := toEtree_shape S cv t f i tc tv htc htv
-            refine cont tv (.agg t f i) ?_ rfl (Or.inr ⟨_, Or.inl ⟨a.name, lookup_mem hv⟩, rfl, htv⟩) ?_ ?_ ?_
+            refine cont tv (.agg t f i) ?_ rfl (Or.inr (Or.inl ⟨_, Or.inl ⟨a.name, lookup_mem hv⟩, rfl, htv⟩)) ?_ ?_ ?_
             · simp [fieldTree, htv, Except.map]
             · rw [mapText_tag, htag]; exact hlow
             · rw [mapText_tag, htag]; exact hdot
@@ -963,7 +1125,7 @@ theorem applyArg_ok (c : Cls) (cj : Nat) (f : List (Str × Node)) (i : List Node
   rw [hn, hin]
   rfl
 
-theorem applyArgs_rt (c : Cls) (items : List Node) (hel : c.elementList = false)
+theorem applyArgs_rt_plain (c : Cls) (items : List Node) (hel : c.elementList = false)
     (hit : ∀ m ∈ items, ItemOk S cv esc c m) : applyArgs S cv c items = .ok items := by
   have h : (List.mapM (m := PyM) (applyArg S c) items) = Except.ok items := by
     apply mapM_self
@@ -973,6 +1135,37 @@ theorem applyArgs_rt (c : Cls) (items : List Node) (hel : c.elementList = false)
   unfold applyArgs
   rw [hel]
   exact h
+
+/-- `ElementList._apply_args` converts the texts read back into the members written -/
+theorem el_args_back (laws : ConvLaws cv S.enums esc Dom) (inner : Kind) (ireq : Bool) :
+    ∀ (ms : List Node), (∀ m ∈ ms, ∃ x, m = .val x ∧ x ≠ .none ∧ Dom inner ireq x) →
+    (ms.map (rawEl S cv esc inner ireq)).mapM (m := PyM)
+      (fun m => (cv.convert S.enums inner ireq (Node.toVal m)).map Node.val) = .ok ms
+  | [], _ => rfl
+  | m :: ms, h => by
+    obtain ⟨x, rfl, hx, hdom⟩ := h m (by simp)
+    obtain ⟨s, hunc, _, hconv⟩ := laws.round inner ireq x hdom hx
+    have ih := el_args_back laws inner ireq ms (fun y hy => h y (by simp [hy]))
+    have hraw : rawEl S cv esc inner ireq (.val x) = .val (.str (esc s)) := by simp [rawEl, Node.toVal, hunc]
+    rw [List.map_cons, List.mapM_cons, hraw, ih]
+    simp [Node.toVal, hconv, Except.map, bind, Except.bind, pure, Except.pure]
+
+theorem applyArgs_rt (laws : ConvLaws cv S.enums esc Dom) (c : Cls) (items : List Node) (wf : ClsWF S c)
+    (hit : c.elementList = false → ∀ m ∈ items, ItemOk S cv esc c m)
+    (hels : c.elementList = true → ∀ a ∈ c.spec, ∀ inner ireq, a.kind = .listElem inner ireq →
+      ∀ m ∈ items, ∃ x, m = .val x ∧ x ≠ .none ∧ Dom inner ireq x) :
+    applyArgs S cv c (rawItemsOf S cv esc c items) = .ok items := by
+  cases hel : c.elementList with
+  | false =>
+    rw [rawItemsOf_plain S cv esc c items hel]
+    exact applyArgs_rt_plain S cv esc c items hel (hit hel)
+  | true =>
+    obtain ⟨a, inner, ireq, hfilt, hk, _⟩ := wf.elOk hel
+    have ha : a ∈ c.spec := by
+      have : a ∈ c.spec.filter (fun a => a.kind.isListElem) := by rw [hfilt]; simp
+      exact (List.mem_filter.mp this).1
+    simp only [applyArgs, rawItemsOf, hel, if_true, hfilt, hk]
+    exact el_args_back S cv esc Dom laws inner ireq items (hels hel a ha inner ireq hk)
 
 theorem rawKwOf_keys (fields : List (Str × Node)) :
     ∀ (L : List Attr) (k : Str), k ∈ (rawKwOf S cv esc fields L).map (·.1) →
@@ -1007,134 +1200,6 @@ theorem applyResidual_rt (c : Cls) (fields : List (Str × Node)) :
     simp only [Bool.not_eq_true, Bool.not_eq_false', List.contains_eq_mem, decide_eq_true_eq, List.mem_map]
     exact ⟨a, by simp [specNoList, ha, hl], hak⟩
   simp [applyResidual, this]
-
-
-end
-
-section
-variable (S : Schema) (cv : Conv) (esc : Str → Str) (Dom : Kind → Bool → Val → Prop)
-
-/-- what makes `agg ci fields items` a valid instance of class `c` (one level) -/
-structure NodeOk (c : Cls) (ci : Nat) (fields : List (Str × Node)) (items : List Node) : Prop where
-  hc : S.cls? ci = some c
-  concrete : c.abstract = false
-  hfind : S.findIdx? c.name = some ci
-  wf : ClsWF S c
-  hel : c.elementList = false
-  hg : c.groom = none
-  hug : c.ungroom = none
-  fm : FieldsMatch (FieldOk Dom) (specNoList c) fields
-  itemsEx : ∀ m ∈ items, ∃ cj f i cjc, m = .agg cj f i ∧ S.cls? cj = some cjc ∧
-    (listAggNames c).contains (lower cjc.name) = true ∧ '.' ∉ cjc.name
-  noList : c.spec.any (·.kind.isList) = false → items = []
-  validate : validateArgs S c items (rawKwOf S cv esc fields c.spec) = .ok ()
-
-theorem specNoList_nodup (c : Cls) (h : (c.spec.map (·.name)).Nodup) :
-    ((specNoList c).map (·.name)).Nodup := by
-  unfold specNoList
-  exact List.Nodup.sublist (List.Sublist.map _ List.filter_sublist) h
-
-theorem node_rt (laws : ConvLaws cv S.enums esc Dom) (c : Cls) (ci : Nat) (fields : List (Str × Node))
-    (items : List Node) (ok : NodeOk S cv esc Dom c ci fields items)
-    (ihF : ∀ n v, (n, v) ∈ fields → v.isAgg = true → RT S cv esc v)
-    (ihI : ∀ m ∈ items, RT S cv esc m) : RT S cv esc (.agg ci fields items) := by
-  have hnd := specNoList_nodup c ok.wf.nodup
-  have ctx : RTCtx S cv esc Dom c fields items :=
-    { wf := ok.wf, hel := ok.hel, hg := ok.hg, laws := laws
-      fieldOk := fun a ha hl hu =>
-        ok.fm.lookup hnd a (by simp [specNoList, ha, hl]) hu
-      subRT := fun a _ v hv hagg => ihF a.name v (lookup_mem hv) hagg
-      itemsOk := fun m hm => ⟨ok.itemsEx m hm, ihI m hm⟩ }
-  obtain ⟨ts, acc', hemit, hfold, hkw, hargs, _⟩ :=
-    emit_fold S cv esc Dom c fields items ctx c.spec [] true Accum.init (by simp)
-      (by simp) (by intro k hk; simp [Accum.init, hasKey, lookup] at hk) (by simp [PrevOk, Accum.init])
-  have hargs' : acc'.args = items := by
-    simp only [Accum.init, List.nil_append, Bool.true_and] at hargs
-    rw [hargs]
-    cases hany : c.spec.any (·.kind.isList) with
-    | true => simp
-    | false => simp [ok.noList hany]
-  have hkw' : acc'.kwargs = rawKwOf S cv esc fields c.spec := by simpa [Accum.init] using hkw
-  -- reading the raw kwargs back
-  have hfm2 : FieldsMatch (fun a v => FieldOk Dom a v ∧
-      lookup a.name (rawKwOf S cv esc fields c.spec) = rawField S cv esc a v) (specNoList c) fields := by
-    refine (ok.fm.withLookup hnd).imp ?_
-    intro a ha v ⟨hfo, hu, hlk⟩
-    refine ⟨hfo, ?_⟩
-    have hmem : a ∈ c.spec ∧ a.kind.isList = false := by
-      simpa [specNoList] using ha
-    exact lookup_rawKwOf S cv esc fields c.spec ok.wf.nodup a hmem.1 hmem.2 hu v hlk
-  have hset := setAttrs_rt S cv esc Dom laws (rawKwOf S cv esc fields c.spec) hfm2
-    (fun a ha => by have : a ∈ c.spec ∧ a.kind.isList = false := by simpa [specNoList] using ha
-                    exact ⟨this.2, ok.wf.enumOk a this.1⟩)
-  have hconstruct : construct S cv ci items (rawKwOf S cv esc fields c.spec) = .ok (.agg ci fields items) := by
-    simp [construct, ok.hc, ok.validate, hset, applyArgs_rt S cv esc c items ok.hel ctx.itemsOk,
-      applyResidual_rt S cv esc c fields, bind, Except.bind, pure, Except.pure]
-  -- assemble
-  refine ⟨Tree.node c.name none none ts, ?_, ?_⟩
-  · simp [toEtree, assemble, ok.hc, hemit, ok.hug, bind, Except.bind, pure, Except.pure]
-  · simp only [mapText, Option.map, fromEtree, convertNode, ok.hfind, ok.hc]
-    by_cases hemp : (mapTextList esc ts).isEmpty = true
-    · have hts : ts = [] := by
-        cases ts with
-        | nil => rfl
-        | cons t ts => simp [mapTextList] at hemp
-      subst hts
-      simp only [mapTextList, childInsts, foldChildren] at hfold
-      have : acc' = Accum.init := by simpa using hfold.symm
-      subst this
-      simp only [Accum.init] at hargs' hkw'
-      simp only [hemp, if_true]
-      rw [hargs', hkw']; exact hconstruct
-    · simp only [hemp, Bool.false_eq_true, if_false, hfold, bind, Except.bind, hargs', hkw']
-      exact hconstruct
-
-
-end
-
-section
-variable (S : Schema) (cv : Conv) (esc : Str → Str) (Dom : Kind → Bool → Val → Prop)
-
-mutual
-  /-- a valid model instance, all the way down -/
-  def Valid : Node → Prop
-    | .val _ => False
-    | .agg ci fields items =>
-      (∃ c, NodeOk S cv esc Dom c ci fields items) ∧ ValidFields fields ∧ ValidItems items
-  def ValidFields : List (Str × Node) → Prop
-    | [] => True
-    | (_, v) :: r => (v.isAgg = true → Valid v) ∧ ValidFields r
-  def ValidItems : List Node → Prop
-    | [] => True
-    | v :: r => Valid v ∧ ValidItems r
-end
-
-mutual
-  theorem rt_node (laws : ConvLaws cv S.enums esc Dom) : ∀ n, Valid S cv esc Dom n → RT S cv esc n
-    | .val _, h => by simp [Valid] at h
-    | .agg ci fields items, h => by
-      obtain ⟨⟨c, ok⟩, hf, hi⟩ := h
-      exact node_rt S cv esc Dom laws c ci fields items ok
-        (rt_fields laws fields hf) (rt_items laws items hi)
-  theorem rt_fields (laws : ConvLaws cv S.enums esc Dom) :
-      ∀ fs, ValidFields S cv esc Dom fs → ∀ n v, (n, v) ∈ fs → v.isAgg = true → RT S cv esc v
-    | [], _, n, v, hm, _ => by simp at hm
-    | (k, w) :: r, h, n, v, hm, hagg => by
-      obtain ⟨hw, hr⟩ := h
-      simp only [List.mem_cons, Prod.mk.injEq] at hm
-      rcases hm with ⟨_, rfl⟩ | hm
-      · exact rt_node laws v (hw hagg)
-      · exact rt_fields laws r hr n v hm hagg
-  theorem rt_items (laws : ConvLaws cv S.enums esc Dom) :
-      ∀ is, ValidItems S cv esc Dom is → ∀ m ∈ is, RT S cv esc m
-    | [], _, m, hm => by simp at hm
-    | w :: r, h, m, hm => by
-      obtain ⟨hw, hr⟩ := h
-      simp only [List.mem_cons] at hm
-      rcases hm with rfl | hm
-      · exact rt_node laws m hw
-      · exact rt_items laws r hr m hm
-end
 
 
 end
